@@ -1,10 +1,10 @@
-\* exhaustive: 2 initial buckets, up to 64, 40 elements entering and leaving at both ends of an interval: every grow,
+\* exhaustive: 2 initial buckets, up to 64, 34 elements entering and leaving at both ends of an interval: every grow,
 \* half-finished shrink and reversal (a shrink turned into a growth and back) up to 64 buckets
 SPECIFICATION SpecXM
 CONSTANTS
   BIT0 = 1
   MaxBit = 6
-  N = 36
+  N = 34
   HSeqs <- HS_resize
   Discipline = "interval"
   D = 0
